@@ -227,10 +227,13 @@ Section Machine.
   Inductive hevent :=
   | HEvCancel (r : reason)
   | HEvUncancel
+  | HEvSetMax (n : N)                        (* thread.SetMaxExecutionSteps(n) between executions *)
+  | HEvRead                                  (* thread.ExecutionSteps() *)
   | HEvExec (s : St) (sched : list tick).    (* must run to completion under sched *)
 
   Inductive hobs :=
-  | OOp (tr : list event)                     (* a Cancel / Uncancel between executions *)
+  | OOp (tr : list event)                     (* a Cancel / Uncancel / SetMaxExecutionSteps between executions *)
+  | ORead (n : N)                             (* what ExecutionSteps() returned *)
   | OExec (r : option err) (steps_after : N) (tr : list event)
   | OStuck (tr : list event).                  (* the schedule ended before the execution did *)
 
@@ -239,6 +242,8 @@ Section Machine.
     | [] => (t, [])
     | HEvCancel r :: h' => let (t2, o) := life (do_cancel t r) h' in (t2, OOp [EvCancel r] :: o)
     | HEvUncancel :: h' => let (t2, o) := life (do_uncancel t) h' in (t2, OOp [EvUncancel] :: o)
+    | HEvSetMax n :: h' => let (t2, o) := life (set_max_execution_steps t n) h' in (t2, OOp [] :: o)
+    | HEvRead :: h' => let (t2, o) := life t h' in (t2, ORead (execution_steps t) :: o)
     | HEvExec s sched :: h' =>
         match run (start t s) sched with
         | (Finished t' _ r, tr) => let (t2, o) := life t' h' in (t2, OExec r (steps t') tr :: o)
@@ -253,11 +258,13 @@ Arguments HReturn {St}. Arguments HFail {St}.
 Arguments Running {St}. Arguments Finished {St}.
 Arguments mkConfig {St}. Arguments th {St}. Arguments stk {St}. Arguments st {St}. Arguments perr {St}.
 Arguments HEvCancel {St}. Arguments HEvUncancel {St}. Arguments HEvExec {St}.
+Arguments HEvSetMax {St}. Arguments HEvRead {St}.
 
 Fixpoint life_trace (l : list hobs) : list event :=
   match l with
   | [] => []
   | OOp tr :: r => tr ++ life_trace r
+  | ORead _ :: r => life_trace r
   | OExec _ _ tr :: r => tr ++ life_trace r
   | OStuck tr :: r => tr ++ life_trace r
   end.
